@@ -113,7 +113,10 @@ def run(ctx):
     for t in grid:
         p = os.path.join(d, "f%d" % t)
         open(p, "w").close()
-        os.utime(p, (t, t))
+        # every other file carries a sub-second part (as a real mtime does): the column shows, and the comparison is made on,
+        # the whole second, so a file modified at 23:59:59.5 still lies ON that day
+        frac = [0, 500000000, 999999999, 1][grid.index(t) % 4] if t >= 0 else 0
+        os.utime(p, ns=(t * 1000000000 + frac, t * 1000000000 + frac))
     names = {"f%d" % t: t for t in grid}
     # the modified column
     rows, r = qlib.select(ctx.impl, "name, modified", "from dt", cwd=ctx.scratch)
@@ -225,7 +228,7 @@ def run(ctx):
         ctx.notes.append("harness: fallback-binary-only (%s)" % str(e)[:200])
     ctx.coverage.update(
         evaluations=st["evaluations"], distinct_nontrivial=len(st["distinct"]), traces_validated_against_impl=st["agreed"],
-        rule="files whose mtimes lie on the grid a-1, a, a+1, b-1, b, b+1 around every literal's interval [a, b] (leap day, month/year ends, epoch, 2038) x literals at day/hour/minute/second precision with '-' and ':' separators, quoted and unquoted, plus today/yesterday/+N/-N against the date read at run time x the eight comparison operators, TZ=UTC; rows vs interval arithmetic in Z (spec) and vs model.Datetime + the regenerated comparison table; `modified` text vs format_datetime; parse_datetime outcome classes through the harness on malformed strings. non-trivial = a comparison selecting a proper non-empty subset of the %d files" % len(grid),
+        rule="files whose mtimes lie on the grid a-1, a, a+1, b-1, b, b+1 (three in four with a sub-second part .5, .999999999 or .000000001) around every literal's interval [a, b] (leap day, month/year ends, epoch, 2038) x literals at day/hour/minute/second precision with '-' and ':' separators, quoted and unquoted, plus today/yesterday/+N/-N against the date read at run time x the eight comparison operators, TZ=UTC; rows vs interval arithmetic in Z (spec) and vs model.Datetime + the regenerated comparison table; `modified` text vs format_datetime; parse_datetime outcome classes through the harness on malformed strings. non-trivial = a comparison selecting a proper non-empty subset of the %d files" % len(grid),
         samples=st["samples"], distribution=dict(st["hist"]))
     return ctx.finish(trusted=["local time is modelled under a fixed UTC offset (checks run with TZ=UTC); the tz database / DST and chrono_english free-form dates are outside the model",
                                "the clock (`today`) is read by the check at run time and handed to the model as a parameter"])
